@@ -47,7 +47,9 @@ fn small_http() -> impl Strategy<Value = HttpReq> {
 
 fn small_rpc() -> impl Strategy<Value = RpcCall> {
     rpc_call().prop_map(|mut r| {
-        r.cred.0.truncate(24);
+        if r.cred.len() < 255 {
+            r.cred.0.truncate(24);
+        }
         r.verf.0.truncate(16);
         r.args.0.truncate(12);
         r
